@@ -119,15 +119,17 @@ class ProofStatus:
     forbidden_hits: List[str] = field(default_factory=list)
     driver_built: bool = True
     leanchecker: Optional[str] = None
+    table_errors: List[str] = field(default_factory=list)
 
     @property
     def ok(self) -> bool:
         return (self.built and self.driver_built and not self.bad_axioms and not self.forbidden_hits
+                and not self.table_errors
                 and len(self.axioms) == len(self.theorems) and len(self.theorems) > 0
                 and self.leanchecker in (None, "ok"))
 
     def broken_items(self) -> List[str]:
-        items: List[str] = []
+        items: List[str] = list(self.table_errors)
         if not self.built:
             m = re.findall(r"error: (\S+\.lean:\d+:\d+): (.*)", self.build_log)
             items += [f"build:{loc} {msg[:120]}" for loc, msg in m[:5]] or ["build failed"]
@@ -158,9 +160,11 @@ def build_and_audit(prop_id: str, tier: str, gen_tables: bool = True) -> ProofSt
     module = f"ASV.Props.{prop_id}"
     props_file = LEAN / "ASV" / "Props" / f"{prop_id}.lean"
     with _Lock():
+        table_errors: List[str] = []
         if gen_tables:
             from . import gen_tables as gt
             gt.regenerate(REPO, LEAN / "ASV" / "Generated")
+            table_errors = list(gt.TABLE_ERRORS)
         res = run(["lake", "build", module], timeout=3000)
         built = res.returncode == 0
         log = res.stdout + res.stderr
@@ -168,7 +172,7 @@ def build_and_audit(prop_id: str, tier: str, gen_tables: bool = True) -> ProofSt
         driver_built = dres.returncode == 0 and DRIVER.exists()
         if not driver_built:
             log += "\n--- driver build ---\n" + dres.stdout + dres.stderr
-        status = ProofStatus(built=built, build_log=log, driver_built=driver_built)
+        status = ProofStatus(built=built, build_log=log, driver_built=driver_built, table_errors=table_errors)
         status.theorems = theorem_names(props_file) if props_file.exists() else []
         status.forbidden_hits = forbidden_scan()
         if built and status.theorems:
